@@ -106,7 +106,7 @@ def prune_cache(keep=6):
 def run_lines(exe, lines, timeout=3600):
     """Feed request lines to a protocol server; -> list of response lines."""
     inp = "\n".join(lines) + "\n"
-    p = subprocess.run([exe], input=inp, stdout=subprocess.PIPE, stderr=subprocess.PIPE, text=True,
+    p = subprocess.run([exe] if isinstance(exe, str) else list(exe), input=inp, stdout=subprocess.PIPE, stderr=subprocess.PIPE, text=True,
                        timeout=timeout)
     out = p.stdout.split("\n")
     if out and out[-1] == "":
@@ -133,7 +133,7 @@ class Server:
     """a persistent protocol server (harness or Lean driver): one request line in, one response out"""
 
     def __init__(self, exe):
-        self.p = subprocess.Popen([exe], stdin=subprocess.PIPE, stdout=subprocess.PIPE, text=True, bufsize=1)
+        self.p = subprocess.Popen([exe] if isinstance(exe, str) else list(exe), stdin=subprocess.PIPE, stdout=subprocess.PIPE, text=True, bufsize=1)
 
     def ask(self, line):
         self.p.stdin.write(line + "\n")
